@@ -175,14 +175,34 @@ def cvlist(arr, ncon, unit=1):
     return [toint(x) if toint(x) is not None else 10 ** 6 for x in v]
 
 
-NORESULT = ("object of type 'NoneType' has no len()", "must have dimension equal to 2")
+PROBE = {"x_none": None, "installed": False}
+
+
+def install_pymoo_probe():
+    """pymoo reports X=None when its final population has no feasible member. Whether that happened is OBSERVED (a wrapper around
+    pymoo.optimize.minimize in every optimiser module), not inferred from the text of the exception that follows."""
+    import sys
+    import pymoo.optimize as po
+    if PROBE["installed"]:
+        return
+    orig = po.minimize
+
+    def wrapped(*a, **k):
+        res = orig(*a, **k)
+        PROBE["x_none"] = res.X is None
+        return res
+    for name, mod in list(sys.modules.items()):
+        if name.startswith("pybrops.opt.algo") and getattr(mod, "minimize", None) is orig:
+            mod.minimize = wrapped
+    po.minimize = wrapped
+    PROBE["installed"] = True
 
 
 def classify_exc(e, constrained):
-    """pymoo reports X=None when its final population has no feasible member; the genetic optimisers then fail while
-    assembling the Solution.  No solution is returned, so the property (about returned solutions) is not engaged."""
+    """The genetic optimisers fail while assembling the Solution when pymoo ended without a feasible member. No solution is
+    returned then, so the property (about returned solutions) is not engaged."""
     msg = "%s: %s" % (type(e).__name__, str(e)[:200])
-    if constrained and any(t in msg for t in NORESULT):
+    if constrained and PROBE["x_none"] is True:
         return "noresult", msg
     return msg, msg
 
@@ -256,6 +276,7 @@ def run(ctx):
             c["req"] = "global" if (sorting and separable) else "valid"
             prob.log = []
             try:
+                install_pymoo_probe(); PROBE["x_none"] = None
                 with time_limit(60):
                     soln = alg.minimize(prob)
             except Timeout:
@@ -340,6 +361,7 @@ def run(ctx):
             c = {"kind": "front", "algo": cls, "seed": seed, "a2": a2}
             subset_fields(c, space, n, k, a, b, g, cap, g2, cap2)
             try:
+                install_pymoo_probe(); PROBE["x_none"] = None
                 with time_limit(120):
                     soln = alg.minimize(prob)
             except Exception as e:
@@ -406,6 +428,7 @@ def run(ctx):
                      "d2": d2 or [0] * m, "gv": gv, "con": cap is not None, "cap": cap if cap is not None else 0, "nobj": 2 if multi else 1,
                      "revised": revised}
                 try:
+                    install_pymoo_probe(); PROBE["x_none"] = None
                     with time_limit(120):
                         soln = alg.minimize(prob)
                 except Exception as e:
